@@ -51,6 +51,21 @@ def family_cells(tier, seed):
                 for c in range(0, len(vs), chunk):
                     out.append(scalar_scn("cells/W%d%s/%s/%d" % (w, "s" if signed else "u", where, c), w, signed, where,
                                           rand=True, vs=vs[c:c + chunk], hows=hows))
+    # (2b) the standard-width aliases (uint8_t ... rand_int64_t): boundary values, initial values, part selects, randomize
+    for w in (8, 16, 32, 64):
+        for signed in (False, True):
+            vs = vals_for(w, False)
+            random.Random(1820 + w).shuffle(vs)
+            for where, hows in (("obj", ["attr", "set_val"]), ("free", ["set_val", "val"])):
+                for ci, iv in enumerate((0, -1, (1 << w) + 5) if tier == "quick" else (0, -1, (1 << w) + 5, 1 << (w - 1), -(1 << (w - 1)) - 1)):
+                    sc = scalar_scn("cells/std%d%s/%s/%d" % (w, "s" if signed else "u", where, ci), w, signed, where,
+                                    rand=ci % 2 == 0, vs=vs[ci * 5:ci * 5 + 5], hows=hows, init=iv)
+                    sc["fields"][0]["std"] = True
+                    sc["ops"] += [{"op": "part_read", "p": "x", "hi": w - 1, "lo": w - 4}, {"op": "part_write", "p": "x", "hi": w - 1, "lo": w - 3, "v": 5 + ci},
+                                  {"op": "part_read", "p": "x", "hi": w - 1, "lo": 0}]
+                    if where == "obj":
+                        sc["ops"] += [{"op": "randomize"}, {"op": "randomize"}]
+                    out.append(sc)
     # (3) constructor initial values
     for w in ([1, 2, 4, 8] if tier == "quick" else [1, 2, 3, 4, 5, 8, 16, 32, 64]):
         for signed in (False, True):
